@@ -16,19 +16,30 @@ PLUS == 0  STAR == -1  OPT == -2
 \* ---- same: identical evidence; identical chosen constraints outside the groups where the code breaks a tie by order
 \* blank-node relabelling: the schemas never mention node identifiers, so no renaming of the schema is needed
 GraphRelated(how) == how = "perm" => (ToSet(da) = ToSet(db) /\ Len(da) = Len(db))
+\* known finding: with inverse_paths, a class that is itself an instance gets value-set constraints '^ rdf:type [<_:label>]' that
+\* name blank-node labels, so renaming the blank nodes changes the schema
+IsBnodeLabel(k) == Len(k) >= 2 /\ SubSeq(k, 1, 2) = "_:"
+NoBnodeValueSets(X, ik) == {x \in X : ~(x[2] /\ x[3] = ca.instProp /\ IsBnodeLabel(x[ik]))}
 Same(P, how, OA, OB) ==
   LET tg == A!TieGroups           \* computed once (the runs are on the same graph and configuration)
       fa == A!Facts(OA)
       fb == B!Facts(OB)
       oa == A!OutsideTiesOf(fa, tg)
       ob == A!OutsideTiesOf(fb, tg)
+      ka == {<<x[1], x[2][1], x[2][2], x[2][3]>> : x \in A!KeysIn(OA)}
+      kb == {<<x[1], x[2][1], x[2][2], x[2][3]>> : x \in B!KeysIn(OB)}
+      cona == {x \in A!ConsOf(OA) : <<x[1], x[2], x[3]>> \notin tg}
+      conb == {x \in B!ConsOf(OB) : <<x[1], x[2], x[3]>> \notin tg}
+      relabel == how = "relabel"
+      kfbn == relabel /\ (ka # kb \/ oa # ob \/ cona # conb) /\ NoBnodeValueSets(ka, 4) = NoBnodeValueSets(kb, 4)
+                 /\ NoBnodeValueSets(oa, 4) = NoBnodeValueSets(ob, 4) /\ NoBnodeValueSets(cona, 4) = NoBnodeValueSets(conb, 4)
   IN (IF ~GraphRelated(how) THEN {"MACHINERY.graphs"} ELSE {}) \cup
      (IF A!Heads(OA) # B!Heads(OB) THEN {P \o ".shapes"} ELSE {}) \cup
-     (IF A!KeysIn(OA) # B!KeysIn(OB) THEN {P \o ".keys"} ELSE {}) \cup
-     (IF oa # ob THEN {P \o ".facts"} ELSE {}) \cup
-     (IF oa = ob /\ fa # fb THEN {"KF." \o P \o ".tieorder"} ELSE {}) \cup
-     (IF {x \in A!ConsOf(OA) : <<x[1], x[2], x[3]>> \notin tg} # {x \in B!ConsOf(OB) : <<x[1], x[2], x[3]>> \notin tg}
-      THEN {P \o ".constraints"} ELSE {})
+     (IF kfbn THEN {"KF." \o P \o ".bnodevalueset"} ELSE
+        (IF ka # kb THEN {P \o ".keys"} ELSE {}) \cup
+        (IF oa # ob THEN {P \o ".facts"} ELSE {}) \cup
+        (IF cona # conb THEN {P \o ".constraints"} ELSE {})) \cup
+     (IF oa = ob /\ fa # fb THEN {"KF." \o P \o ".tieorder"} ELSE {})
 
 \* ---- thr (C12)
 FactKey(f) == <<f[1], f[2], f[3], f[4], f[5]>>
